@@ -43,7 +43,7 @@ LEVEL_NOTE = ("Trusted: Lean kernel; the cache-discipline model (validated again
               "(no float rounding).")
 TECHNIQUE = ("Lean 4 invariant proof over the recipe-cache state machine + C01's verified certificate checker on the "
              "real programs after every step + differential value check against a dense reference")
-LEAN_MODULES = ["CotengraVerif.Props.C02", "CotengraVerif.Props.C02Facts"]
+LEAN_MODULES = ["CotengraVerif.Props.C02", "CotengraVerif.Props.C02Facts", "CotengraVerif.Props.C02Value"]
 THEOREMS = [
     "Cotengra.C02.coherent_init",
     "Cotengra.C02.coherent_getInds",
@@ -54,6 +54,7 @@ THEOREMS = [
     "Cotengra.C02.unfixed_counterexample",
     "Cotengra.C02.mutators_end_with_reset",
     "Cotengra.C02.mutators_nonempty",
+    "Cotengra.C02.transformation_preserves_value",
 ]
 TRUSTED = [
     "Lean 4.33 kernel; axioms ⊆ {propext, Classical.choice, Quot.sound}",
